@@ -223,6 +223,12 @@ impl Client {
         self.create_new_session().await
     }
 
+    /// Padding scheme for the next session: the scheme most recently pushed by a server,
+    /// or the one this client was created with while no scheme has been pushed
+    fn session_padding(&self) -> Arc<PaddingFactory> {
+        PaddingFactory::updated().unwrap_or_else(|| self.padding.clone())
+    }
+
     /// Create a new session with the server
     async fn create_new_session(&self) -> Result<Arc<Session>> {
         #[cfg(anytls_rs_verif)]
@@ -307,7 +313,8 @@ impl Client {
         // Split TLS stream into reader and writer
         let (reader, mut writer) = tokio::io::split(tls_stream);
         tracing::trace!("[Client] Sending authentication");
-        send_authentication(&mut writer, &self.password_hash, &self.padding).await?;
+        let padding = self.session_padding();
+        send_authentication(&mut writer, &self.password_hash, &padding).await?;
         tracing::debug!("[Client] Authentication sent successfully");
 
         // Create session with reader and writer
@@ -318,7 +325,7 @@ impl Client {
         let session = Arc::new(Session::new_client(
             reader,
             writer,
-            self.padding.clone(),
+            padding,
             Some(heartbeat_config),
         ));
 
@@ -358,7 +365,8 @@ impl Client {
     #[cfg(anytls_rs_verif)]
     async fn verif_create_new_session(&self, connector: VerifConnector) -> Result<Arc<Session>> {
         let (reader, mut writer) = connector();
-        send_authentication(&mut writer, &self.password_hash, &self.padding).await?;
+        let padding = self.session_padding();
+        send_authentication(&mut writer, &self.password_hash, &padding).await?;
 
         let heartbeat_config = SessionHeartbeatConfig {
             interval: self.pool_config.check_interval,
@@ -367,7 +375,7 @@ impl Client {
         let session = Arc::new(Session::new_client(
             reader,
             writer,
-            self.padding.clone(),
+            padding,
             Some(heartbeat_config),
         ));
 
